@@ -885,6 +885,30 @@ def _ttfont_load(ex, st, args, kwargs, node):
         ex.write_field(st, f, "cfg", kwargs["cfg"], node)
     ex.write_field(st, p, "formatType", ex.read_field(st, s, "post_format"), node)
     ex.write_field(st, p, "present", ex.read_field(st, s, "has_post"), node)
+    # the CFF table objects of the new font (decompiled lazily; what they will show).  fontTools takes the glyph order of a font
+    # with a 'CFF ' table FROM that table: the charset is the glyph order, CharStrings are keyed by the charset names.
+    for tbl in ("cff_table", "cff2_table"):
+        t, fs, top, cs = (ex.new_object(st, c) for c in ("PPCFFTable", "PPCFFFontSet", "PPTopDict", "PPCharStrings"))
+        ex.write_field(st, f, tbl, t, node)
+        ex.write_field(st, t, "cff", fs, node)
+        ex.write_field(st, fs, "topDictIndex", Val(List(Ref("PPTopDict")), z3.Unit(top.term)), node)
+        ex.write_field(st, top, "CharStrings", cs, node)
+        if tbl == "cff_table":
+            hc = ex.read_field(st, s, "has_CFF").term
+            charset = fresh(List(STR), "charset")
+            st.assume(z3.Implies(hc, charset == new_order))
+            ex.write_field(st, top, "charset", Val(List(STR), charset), node)
+            dt = Dict(STR, Ref("PPCharString"))
+            d = fresh(dt, "charStrings")
+            # keys of CharStrings = the names of the glyph order: every position's name is a key, every key sits at a position
+            from pyvc.core import fresh_name, seq_nth
+
+            pos = z3.Function(fresh_name("charset_pos"), z3.StringSort(), z3.IntSort())
+            k_, n_ = z3.Int(fresh_name("ck")), z3.Const(fresh_name("cn"), z3.StringSort())
+            dom = dt.sort().dom(d)
+            st.assume(z3.Implies(hc, z3.ForAll([k_], z3.Implies(z3.And(0 <= k_, k_ < z3.Length(new_order)), z3.Select(dom, seq_nth(new_order, k_))))))
+            st.assume(z3.Implies(hc, z3.ForAll([n_], z3.Implies(z3.Select(dom, n_), z3.And(0 <= pos(n_), pos(n_) < z3.Length(new_order), seq_nth(new_order, pos(n_)) == n_)))))
+            ex.write_field(st, cs, "charStrings", Val(dt, d), node)
     return f
 
 
@@ -900,6 +924,11 @@ def _delattr(ex, st, args, kwargs, node):
     ex.write_field(st, o, cs.has[n.py], Val.const(False), node)
     return Val.const(None)
 
+
+# "the names stored in the CFF table are the glyph order": charset position by position, CharStrings keys <-> positions
+_NAMES_AGREE_T = ("len({top}.charset) == len({order}) and all({top}.charset[k] == {order}[k] for k in range(len({order}))) "
+                  "and all(any({order}[k] == n for k in range(len({order}))) for n in {top}.CharStrings.charStrings) "
+                  "and all({order}[k] in {top}.CharStrings.charStrings for k in range(len({order})))")
 
 contract(
     "ufo2ft.postProcessor:_reloadFont",
@@ -917,11 +946,12 @@ contract(
         "same-names-when-stored": "implies('CFF ' in font or ('post' in font and font['post'].formatType == 2.0), result.glyphOrder == font.glyphOrder)",
         "same-count": "len(result.glyphOrder) == len(font.glyphOrder)",
         "source-untouched": "font.glyphOrder == old(font.glyphOrder)",
+        # a reloaded 'CFF ' font: the names in the CFF table are the glyph order
+        "cff-names-agree": "implies('CFF ' in font, " + _NAMES_AGREE_T.format(top="result['CFF '].cff.topDictIndex[0]", order="result.glyphOrder") + ")",
     },
     canaries={"same-object": "result is font"},
 )
 
-_NO_CFF = "'CFF ' not in {o} and ('CFF2' not in {o} or not {o}.isLoaded('CFF2'))"
 _EXTRA_SUB = "all(any({o}.glyphOrder[k] == g for k in range(len({o}.glyphOrder))) and g not in standardGlyphOrder for g in {o}['post'].extraNames)"
 _EXTRA_SUP = "all(implies(g not in standardGlyphOrder, g in elems({o}['post'].extraNames)) for g in {o}.glyphOrder)"
 _POST_FIELDS = ["PPPost.formatType", "PPPost.extraNames", "PPPost.mapping", "PPPost.glyphOrder", "PPPost.has_extraNames", "PPPost.has_mapping"]
@@ -950,21 +980,29 @@ contract(
 _UNIQ = "all(all(implies(a != b, rename_map[a] != rename_map[b]) for b in rename_map) for a in rename_map)"
 _RESV = "all(all(implies(m not in rename_map, rename_map[a] != m) for m in old(otf.glyphOrder)) for a in rename_map)"
 
+_CFF_NAME_FIELDS = ["PPTopDict.charset", "PPCharStrings.charStrings"]
+_RENAME_FRAME = ["PPFont.glyphOrder", "PPPost.extraNames", "PPPost.mapping", "PPPost.has_extraNames", "PPPost.has_mapping"] + _CFF_NAME_FIELDS
+_CFF2_NOT_LOADED = "('CFF2' not in {o} or not {o}.isLoaded('CFF2'))"
+_CHARSET_MAPPED = ("len({t}.charset) == len(old({t}.charset)) and "
+                   "all({t}.charset[k] == rename_map.get(old({t}.charset)[k], old({t}.charset)[k]) for k in range(len(old({t}.charset))))")
+
 contract(
     f"{PP}.rename_glyphs",
-    name="no-cff",
+    name="general",
     props=["C11"],
     params={"otf": Ref("PPFont"), "rename_map": Dict(STR, STR)},
     globals={"standardGlyphOrder": _STD_SYM},
-    modifies=["PPFont.glyphOrder"] + _POST_FIELDS,
+    modifies=_RENAME_FRAME,
+    merge_branches=False,
     requires=[
-        # TTF, or CFF2 whose table has not been decompiled (CFF2 stores no glyph names): no charset to rewrite
-        _NO_CFF.format(o="otf"),
         # typestate, from the comment in process_glyph_names: "We need to reload the font *before* renaming glyphs,
         # since various tables may have been build/loaded using the original glyph names"
         "otf.pristine",
+        # ... in particular a CFF2 table has not been decompiled (CFF2 stores no glyph names; a loaded one would be rewritten too)
+        _CFF2_NOT_LOADED.format(o="otf"),
     ],
     ensures={
+        # TTF, CFF2 and 'CFF ' fonts alike:
         # the new glyph order is the old one with every name passed through the map: same length, same positions
         "mapped": "len(otf.glyphOrder) == len(old(otf.glyphOrder)) and all(otf.glyphOrder[k] == rename_map.get(old(otf.glyphOrder)[k], old(otf.glyphOrder)[k]) for k in range(len(old(otf.glyphOrder))))",
         # an injective map that avoids the names it does not touch cannot create a duplicate glyph name
@@ -973,9 +1011,41 @@ contract(
         "post-names-sup": "implies('post' in otf and otf['post'].formatType == 2.0, " + _EXTRA_SUP.format(o="otf") + ")",
         "post-names-map": "implies('post' in otf and otf['post'].formatType == 2.0, len(otf['post'].mapping) == 0)",
         "post-format-kept": "implies('post' in otf, otf['post'].formatType == old(otf['post'].formatType))",
+        # a 'CFF ' table stores the names itself: its charset goes through the same map, position by position
+        "charset-mapped": "implies('CFF ' in otf, " + _CHARSET_MAPPED.format(t="otf.cff_top") + ")",
+        "tables-kept": "iff('CFF ' in otf, old('CFF ' in otf)) and iff('CFF2' in otf, old('CFF2' in otf)) and iff('post' in otf, old('post' in otf))",
     },
     bounded_ensures={"extra-names-in-glyph-order": "implies('post' in otf and otf['post'].formatType == 2.0, otf['post'].extraNames == [g for g in otf.glyphOrder if g not in standardGlyphOrder])"},
     canaries={"unchanged": "otf.glyphOrder == old(otf.glyphOrder)"},
+)
+
+# ---- the 'CFF ' table: charset and CharStrings are rewritten with ONE map, the charstring objects are the same -------------------
+_CFFTOP = "otf['CFF '].cff.topDictIndex[0]"
+_CS = f"{_CFFTOP}.CharStrings.charStrings"
+_RENAMED = "rename_map.get({n}, {n})"
+_INJ_ON_KEYS = f"all(all(implies(a != b, {_RENAMED.format(n='a')} != {_RENAMED.format(n='b')}) for b in old({_CS})) for a in old({_CS}))"
+
+contract(
+    f"{PP}.rename_glyphs",
+    name="cff",
+    props=["C11"],
+    params={"otf": Ref("PPFont"), "rename_map": Dict(STR, STR)},
+    globals={"standardGlyphOrder": _STD_SYM},
+    modifies=_RENAME_FRAME,
+    merge_branches=False,
+    requires=["otf.pristine", "'CFF ' in otf"],
+    ensures={
+        "charset-mapped": _CHARSET_MAPPED.format(t=_CFFTOP),
+        # the names stored in the CFF follow the glyph order: if they agreed before, they agree afterwards
+        "cff-names-follow": f"implies(old(len({_CFFTOP}.charset) == len(otf.glyphOrder) and all({_CFFTOP}.charset[k] == otf.glyphOrder[k] for k in range(len(otf.glyphOrder)))), "
+                            f"len({_CFFTOP}.charset) == len(otf.glyphOrder) and all({_CFFTOP}.charset[k] == otf.glyphOrder[k] for k in range(len(otf.glyphOrder))))",
+        # CharStrings: the new keys are exactly the images of the old keys ...
+        "keys-image": f"all({_RENAMED.format(n='n')} in {_CS} for n in old({_CS}))",
+        "keys-only-image": f"all(any(k == {_RENAMED.format(n='n')} for n in old({_CS})) for k in {_CS})",
+        # ... and, when no two glyphs get the same name, every charstring OBJECT is found under its glyph's new name (nothing is re-built)
+        "charstrings-kept": f"implies({_INJ_ON_KEYS}, all({_CS}[{_RENAMED.format(n='n')}] is old({_CS})[n] for n in old({_CS})))",
+    },
+    canaries={"same-keys": f"all(n in {_CS} for n in old({_CS}))"},
 )
 
 
@@ -1032,7 +1102,7 @@ def _rg_cases(rng, n):
     return out
 
 
-CONTRACTS[f"{PP}.rename_glyphs#no-cff"].runtime = Runtime(
+CONTRACTS[f"{PP}.rename_glyphs#general"].runtime = Runtime(
     _rg_cases, lambda d: {"otf": build_font(d["order"], d["post"]), "rename_map": dict(d["map"])}
 )
 
@@ -1053,7 +1123,6 @@ CLASSES["PostProcessor"].views["otf"] = _proxy_otf
 CLASSES["PostProcessor"].derived["otf_id"] = lambda ex, st, self: ex.read_field(st, self, "otf")
 CLASSES["PostProcessor"].views["otf_id"] = lambda o: id(o.otf)
 
-_SELF_NO_CFF = _NO_CFF.format(o="self.otf")
 # what the top-level statement asks of the final glyph order, in terms of the order before renaming (`O`)
 _FINAL = {
     # "The final names are unique"
@@ -1069,9 +1138,9 @@ contract(
     f"{PP}._rename_glyphs_from_ufo",
     props=["C11"],
     params={"self": Ref("PostProcessor")},
-    calls={f"{PP}.rename_glyphs": f"{PP}.rename_glyphs#no-cff"},
-    modifies=["PPFont.glyphOrder"] + _POST_FIELDS,
-    requires=[_SELF_NO_CFF, "self.otf.pristine"],
+    calls={f"{PP}.rename_glyphs": f"{PP}.rename_glyphs#general"},
+    modifies=_RENAME_FRAME,
+    requires=["self.otf.pristine", _CFF2_NOT_LOADED.format(o="self.otf")],
     ensures={
         **_FINAL,
         "same-font-object": "self.otf_id == old(self.otf_id)",
@@ -1124,19 +1193,16 @@ contract(
     f"{PP}.process_glyph_names",
     props=["C11"],
     params={"self": Ref("PostProcessor"), "useProductionNames": Opt(BOOL)},
-    modifies=["PostProcessor.otf", "PPFont.glyphOrder"] + _POST_FIELDS,
-    requires=[
-        # renaming a font with a 'CFF ' table rewrites charset/CharStrings by a dict comprehension with computed keys,
-        # which is outside the engine's fragment: those inputs are covered by the bounded observer (vcheck/hooks/c11.py)
-        f"implies({_K} and {_U}, 'CFF ' not in self.otf)",
-    ],
+    modifies=sorted(set(["PostProcessor.otf"] + _RENAME_FRAME + _POST_FIELDS)),
+    requires=[],
     ensures={
         # --- nothing to rename: the font object and its glyph order are left alone
         "keep-no-rename": f"implies({_K} and not {_U}, self.otf_id == old(self.otf_id) and self.order == old(self.order))",
         # --- rename: on a RELOADED font (typestate; the callee's precondition `pristine` is proved at the call site) ...
         "rename-on-reloaded-font": f"implies({_K} and {_U}, self.otf_id != old(self.otf_id))",
         # ... and the final names are unique / legal / kept where the source has no glyph (names survive the reload through post 2.0)
-        **{k: f"implies({_K} and {_U} and {_HAS_POST0}, {v})" for k, v in _FINAL.items()},
+        # ('CFF ' fonts carry their names through the reload in the CFF table itself)
+        **{k: f"implies({_K} and {_U} and ({_HAS_POST0} or {_HAS_CFF0}), {v})" for k, v in _FINAL.items()},
         # --- names kept: TTF/CFF2 store them in a format 2.0 post table
         "post-2-when-kept": f"implies({_K} and not {_HAS_CFF0} and 'post' in self.otf, self.otf['post'].formatType == 2.0)",
         # --- names dropped (TTF/CFF2): post 3.0, THEN reload, so that no table keeps the old names
@@ -1204,9 +1270,6 @@ CONTRACTS[f"{PP}.process_glyph_names"].runtime = Runtime(
 # glyph order, the post table's name fields and the CFF charset / CharStrings keys are written; the table SET, and
 # everything else reachable from the font, is left alone.  (C12 composes `process` from this: the name step calls none of
 # the CFF libraries and keeps the CFF flavour.)
-_CFF_NAME_FIELDS = ["PPTopDict.charset", "PPCharStrings.charStrings"]
-_RENAME_FRAME = ["PPFont.glyphOrder", "PPPost.extraNames", "PPPost.mapping", "PPPost.has_extraNames", "PPPost.has_mapping"] + _CFF_NAME_FIELDS
-
 contract(
     f"{PP}.rename_glyphs",
     name="frame",
@@ -1271,3 +1334,62 @@ CONTRACTS[f"{PP}._rename_glyphs_from_ufo#frame"].runtime = Runtime(_frame_cases,
 CONTRACTS[f"{PP}.process_glyph_names#frame"].runtime = Runtime(
     _frame_cases, lambda d: {"self": compiled_font(d), "useProductionNames": d["arg"]}, call=lambda fn, a: fn(a["self"], a["useProductionNames"])
 )
+
+
+# =====================================================================================================
+# The 'CFF ' chain: a reloaded CFF font is renamed consistently (glyph order, charset, CharStrings keys: one map)
+_S_TOP = "self.otf['CFF '].cff.topDictIndex[0]"
+_S_CS = f"{_S_TOP}.CharStrings.charStrings"
+_NAMES_AGREE = _NAMES_AGREE_T.format(top=_S_TOP, order="self.order")
+
+contract(
+    f"{PP}._rename_glyphs_from_ufo",
+    name="cff",
+    props=["C11"],
+    params={"self": Ref("PostProcessor")},
+    calls={f"{PP}.rename_glyphs": f"{PP}.rename_glyphs#cff"},
+    modifies=_RENAME_FRAME,
+    requires=[
+        "self.otf.pristine", "'CFF ' in self.otf",
+        # a freshly loaded CFF font (contract of _reloadFont): the names in the CFF table are the glyph order
+        _NAMES_AGREE,
+    ],
+    ensures={
+        # afterwards they are the NEW glyph order ...
+        "cff-names-agree": f"len({_S_TOP}.charset) == len(self.order) and all({_S_TOP}.charset[k] == self.order[k] for k in range(len(self.order)))",
+        # ... and every charstring object is still in the table (under its glyph's final name): nothing is re-built or dropped
+        "charstrings-kept": f"all(any({_S_CS}[m] is old({_S_CS})[n] for m in {_S_CS}) for n in old({_S_CS}))",
+        "no-new-entries": f"all(any(old({_S_CS})[n] is {_S_CS}[m] for n in old({_S_CS})) for m in {_S_CS})",
+    },
+    canaries={"same-names": f"all(n in {_S_CS} for n in old({_S_CS}))"},
+)
+
+contract(
+    f"{PP}.process_glyph_names",
+    name="cff",
+    props=["C11"],
+    params={"self": Ref("PostProcessor"), "useProductionNames": Opt(BOOL)},
+    calls={f"{PP}._rename_glyphs_from_ufo": f"{PP}._rename_glyphs_from_ufo#cff"},
+    modifies=sorted(set(["PostProcessor.otf"] + _RENAME_FRAME + _POST_FIELDS)),
+    requires=["'CFF ' in self.otf"],
+    ensures={
+        # renaming a 'CFF ' font ends with a CFF table whose charset is the final glyph order
+        "cff-names-agree": f"implies({_K} and {_U}, len({_S_TOP}.charset) == len(self.order) and all({_S_TOP}.charset[k] == self.order[k] for k in range(len(self.order))))",
+        "still-cff": "'CFF ' in self.otf",
+    },
+    canaries={"never-renames": f"not ({_K} and {_U})"},
+)
+
+
+def _cff_cases(rng, n):
+    return [dict(d, flavor="cff") for d in _frame_cases(rng, n)]
+
+
+CONTRACTS[f"{PP}.rename_glyphs#cff"].runtime = Runtime(
+    _cff_cases, lambda d: (lambda pp: {"otf": pp.otf, "rename_map": pp._build_production_names()})(_rg_frame_build(d)),
+)
+CONTRACTS[f"{PP}._rename_glyphs_from_ufo#cff"].runtime = Runtime(_cff_cases, lambda d: {"self": _rg_frame_build(d)}, call=lambda fn, a: fn(a["self"]))
+CONTRACTS[f"{PP}.process_glyph_names#cff"].runtime = Runtime(
+    _cff_cases, lambda d: {"self": compiled_font(d), "useProductionNames": d["arg"]}, call=lambda fn, a: fn(a["self"], a["useProductionNames"])
+)
+CONTRACTS["ufo2ft.postProcessor:_reloadFont"].runtime = Runtime(_frame_cases, lambda d: {"font": compiled_font(d).otf})
